@@ -18,6 +18,16 @@ import DadiVerif.Model.Optim
                                                   | err unknown_wrapper | err ValueError | err IndexError | err missing_table_entry | err missing_model_entry
    c12.points  <same arguments as c12.trace>   -> ok <vectors whose likelihood c12.trace will look up> (the likelihood table given is ignored)
    c12.perturb <params> <factors> <lower|N> <upper|N>  -> ok <vec>       | err shape
+   c12.perturbexp <fold> <us>                  -> ok <exponents of 2, one per variate>           (generated `perturbExponent`)
+   c12.perturbfold <params> <fold> <us> <lower|N> <upper|N> <pow2tab>
+                                               -> ok <vec>               | err shape | err missing_table_entry
+   c12.args                                    -> ok <signature of _object_func after params: a,b,…> <required: a,b,…>
+                                                     wrapper|own,own,…|param=arg,param=arg,… ; …
+   c12.grid <wrapper> <slices> <fixed|N> <keys> <vals> <0|1: points only>
+             slices: `c:a:b:m` (a:b:mj) or `s:a:b:step:0|1` (a:b:step, 1 = written with integers only), joined by `;`
+                                               -> ok <int|float: element type of the queries> <evaluation points, in order> <values, in order>
+                                                     <returned vector|N> <reported|N> <brute's xmin|N>
+                                                  | err unknown_wrapper | err ValueError (empty grid) | err IndexError | err missing_model_entry
 -/
 namespace DadiVerif.Driver.Optim
 open DadiVerif DadiVerif.Proto DadiVerif.Optim
@@ -122,6 +132,33 @@ def traceOp (pointsOnly : Bool) (w : Wrapper) (pb : Problem) (qs : List (List Ra
   if !((r0.run.evals ++ extra).all mt.has) then "err missing_model_entry" else
   "ok " ++ s0
 
+def parseSlice (s : String) : Option GridSlice :=
+  match s.splitOn ":" with
+  | ["c", a, b, m] => do
+      let a ← parseRat a; let b ← parseRat b; let m ← m.toNat?
+      some (.count a b m)
+  | ["s", a, b, st, lit] => do
+      let a ← parseRat a; let b ← parseRat b; let st ← parseRat st
+      if lit = "1" then some (.step a b st true) else if lit = "0" then some (.step a b st false) else none
+  | _ => none
+
+def parseSlices (s : String) : Option (List GridSlice) := (s.splitOn ";").mapM parseSlice
+
+def showDType : DType → String
+  | .int => "int"
+  | .float => "float"
+
+def gridOp (pointsOnly : Bool) (w : Wrapper) (sl : List GridSlice) (fx : Option Fixed) (mt : MTab) : String :=
+  let pts := gridPoints sl
+  if pts.isEmpty then "err ValueError" else
+  if !(pts.all (freeLenOk · fx)) then "err IndexError" else
+  let pb : Problem := ⟨[], none, none, fx, 1⟩
+  let r := runGridT w id id pb mt.fn sl
+  if pointsOnly then s!"ok {showDType (gridDType sl)} {showVecs r.run.evals}" else
+  if !(r.run.evals.all mt.has) then "err missing_model_entry" else
+  s!"ok {showDType (gridDType sl)} {showVecs r.run.evals} {showList (r.run.history.map (·.2))} {showOptList r.result} " ++
+  s!"{match r.reported with | none => "N" | some f => showRat f} {showOptList (r.run.final.map (·.1))}"
+
 def handle (toks : List String) : Option String :=
   match toks with
   | ["c12.table"] =>
@@ -171,6 +208,26 @@ def handle (toks : List String) : Option String :=
       let okLen (b : Option Bounds) : Bool := match b with | none => true | some l => l.length == params.length
       if params.length != factors.length || !(okLen lo) || !(okLen up) then some "err shape"
       else some ("ok " ++ showList (perturb params factors lo up))
+  | ["c12.perturbexp", fold, us] => do
+      let fold ← parseRat fold; let us ← parseList us
+      some ("ok " ++ showList (us.map (Gen.Optim.perturbExponent fold)))
+  | ["c12.perturbfold", params, fold, us, lo, up, tab] => do
+      let params ← parseList params; let fold ← parseRat fold; let us ← parseList us
+      let lo ← parseOptBounds lo; let up ← parseOptBounds up; let tab ← parseTab tab
+      let okLen (b : Option Bounds) : Bool := match b with | none => true | some l => l.length == params.length
+      if params.length != us.length || !(okLen lo) || !(okLen up) then some "err shape" else
+      let r0 := perturbFold (tab.fn 0) params fold us lo up
+      let r1 := perturbFold (tab.fn 1) params fold us lo up
+      if r0 != r1 then some "err missing_table_entry" else some ("ok " ++ showList r0)
+  | ["c12.args"] =>
+      some (s!"ok {",".intercalate Gen.Optim.objectFuncParams} {",".intercalate Gen.Optim.objectFuncRequired} " ++
+        ";".intercalate (Gen.Optim.objCalls.map fun c =>
+          s!"{c.wrapper}|{",".intercalate c.own}|{",".intercalate (c.binding.map fun pa => pa.1 ++ "=" ++ pa.2)}"))
+  | ["c12.grid", wn, sl, fx, keys, vals, po] => do
+      let sl ← parseSlices sl; let fx ← parseOptBounds fx; let mt ← parseMTab keys vals
+      match Gen.Optim.wrappers.find? (fun w => w.name == wn) with
+      | none => some "err unknown_wrapper"
+      | some w => some (gridOp (po == "1") w sl fx mt)
   | _ => none
 
 end DadiVerif.Driver.Optim
